@@ -18,6 +18,7 @@ RULE = ("Hypothesis generates histories (construction from mapping / pairs / key
         "types, stored keys upper-case, key order = first insertion, equality with plain dicts of any key case (both "
         "operand orders), copy independence, sorted_keys against an own reference. Non-trivial: the history touches "
         "one name through >= 2 spellings; distinct by hash.")
+RULE += " Rounds 7-8: names with characters between 'Z' and 'a'; update() from a mapping by protocol; results of | are independent objects."
 ASSUMPTIONS = ["keys are str or UTF-8 bytes (the documented key types)", "values are opaque (ints/strs)"]
 REQUIRED_CLASSES = ["two-spellings", "bytes-key", "ctor:mapping", "ctor:pairs", "ctor:kwargs", "op:ior", "op:or", "op:ror", "op:eq", "kind:SubEvent", "kind:Dynamic"]
 
